@@ -94,7 +94,10 @@ ASSUMPTIONS = [
     'a mod $40000 (item access of ObservableMemory); ranges longer than the physical memory (which would '
     'overwrite themselves) are outside the quantifier',
     'files: existing regular files; for `top` at most as many words as the address space holds',
-    'labels empty, radix 16 (labels and radices are C15), terminal width as set by the width command (>= 10)',
+    'terminal width as set by the width command (>= 10).  30 % of the scripts run in a session context (a `radix` command '
+    'and up to five `add_label`s typed first): bare digits are then in that radix and numbers may be labels or '
+    'label+/-offset (label values on the byte and address boundaries); the real monitor gets those spellings, the '
+    'model (radix 16, no labels) the same numbers as $hex -- number parsing itself is C15',
     'memory cells hold values in [0, 2^BYTE_WIDTH) (true of every cell the monitor or a device writes)',
     'tie by regeneration covers Monitor._fill only; do_fill / do_load / do_save / do_mem (shlex, files, the address '
     'parser, the output wrapping) remain hand-modelled and tied by correspondence.  The generated while loop is '
@@ -150,10 +153,11 @@ def toks_field(toks):
 
 def cmd_token(c):
     k = c['k']
+    toks = c.get('ntoks', c.get('toks'))
     if k in ('fill', 'save', 'mem', 'ab', 'db'):
-        return '%s/%s' % (k, toks_field(c['toks']))
+        return '%s/%s' % (k, toks_field(toks))
     if k == 'load':
-        return 'load/%s/%s' % (c['file'] or '-', toks_field(c['toks']))
+        return 'load/%s/%s' % (c['file'] or '-', toks_field(toks))
     if k in ('width', 'pc'):
         return '%s/%d' % (k, c['n'])
     if k == 'shb':
@@ -202,7 +206,7 @@ def exc_kind(body):
 
 
 class RealMon(object):
-    def __init__(self, dev, seed, pc, scratch):
+    def __init__(self, dev, seed, pc, scratch, sctx=None):
         from py65.monitor import Monitor
         r, w = os.pipe()
         os.close(w)                    # EOF: getch_noblock returns '' at once, getc answers 0
@@ -213,6 +217,18 @@ class RealMon(object):
         self.prologue = ["Monitor(argv=['py65mon', '-m', %r])" % start_dev] + prologue
         for line in prologue:          # session history that must not matter (common.history_prologue)
             self.mon.onecmd(line)
+        if sctx:                       # session context: labels first (their addresses in hex), then the radix
+            for nm in sorted(sctx['labels']):
+                line = 'add_label $%x %s' % (sctx['labels'][nm], nm)
+                self.mon.onecmd(line)
+                self.prologue.append(line)
+            if sctx['radix'] != 16:
+                line = 'radix %s' % {10: 'd', 8: 'o', 2: 'b'}[sctx['radix']]
+                self.mon.onecmd(line)
+                self.prologue.append(line)
+            assert self.mon._address_parser.radix == sctx['radix'], 'radix command had no effect'
+            assert dict(self.mon._address_parser.labels) == sctx['labels'], 'add_label commands had no effect'
+        self.labels = dict(sctx['labels']) if sctx else {}
         self.mon.lastcmd = ''
         self.dev, self.P = dev, DEVS[dev]
         self.subj = self.mon._mpu.memory._subject
@@ -354,7 +370,9 @@ class RealMon(object):
             for ln in body.split('\n'):
                 if not ln:
                     continue
-                m = re.match(r'Breakpoint (\d+): \$([0-9A-F]+)$', ln)
+                m = re.match(r'Breakpoint (\d+): \$([0-9A-F]+)(?: (\S+))?$', ln)
+                if m and m.group(3) is not None and self.labels.get(m.group(3)) != int(m.group(2), 16):
+                    m = None               # a label is shown only when it stands for that address
                 if not m:
                     ok = False
                     break
@@ -564,12 +582,49 @@ def width_class(w):
     return '151-200'
 
 
+_SPELL = [None]     # session context of the script being generated: dict(radix, labels, map) or None
+
+
+def _digits(n, radix):
+    if n == 0:
+        return '0'
+    d, out = '0123456789abcdef', ''
+    while n:
+        out = d[n % radix] + out
+        n //= radix
+    return out
+
+
 def spell_num(rng, n):
+    """One spelling of n.  Under a session context (a `radix` command and `add_label`s typed before the
+    script: property C16 quantifies over ranges and data lists, C20 over prior session histories) bare digits
+    are in the session's radix and a number may be a label or label+/-offset; the context remembers what
+    every spelling denotes so that the model is asked about the same numbers."""
+    ctx = _SPELL[0]
+    if ctx is None or n < 0:
+        t = _spell_plain(rng, n, 16)
+    else:
+        r = rng.random()
+        names = [k for k, v in ctx['labels'].items() if v == n]
+        if names and r < 0.5:
+            t = rng.choice(names)
+        elif ctx['labels'] and r < 0.3:
+            k = rng.choice(sorted(ctx['labels']))
+            v = ctx['labels'][k]
+            off = _spell_plain(rng, abs(n - v), ctx['radix'])
+            t = '%s%s%s' % (k, '+' if n >= v else '-', off)
+        else:
+            t = _spell_plain(rng, n, ctx['radix'])
+        ctx['map'][t] = n
+    return t
+
+
+def _spell_plain(rng, n, radix):
     r = rng.random()
     if r < 0.35:
-        return '%x' % n
+        return _digits(n, radix)
     if r < 0.45:
-        return '%X' % n
+        return _digits(n, radix).upper()
     if r < 0.65:
         return '$%x' % n
     if r < 0.72:
@@ -578,7 +633,37 @@ def spell_num(rng, n):
         return '+%d' % n
     if r < 0.95 and n < (1 << 20):
         return '%' + bin(n)[2:]
-    return '00%x' % n
+    return '00' + _digits(n, radix)
+
+
+def gen_context(rng, dev):
+    """A session context: default radix and a label table whose values sit on the byte / address boundaries."""
+    P = DEVS[dev]
+    top = (1 << P['AW']) - 1
+    bm = (1 << P['W']) - 1
+    vals = [0, 1, bm, bm + 1, 2 * bm + 1, 0x200, P['phys'] - 1, top, rng.randrange(bm + 1), rng.randrange(P['phys'])]
+    names = ['zq', 'Lbl_1', 'wide', 'top_', 'yy9', 'g0', 'data_x', 'k']
+    rng.shuffle(names)
+    labels = {}
+    for nm in names[:rng.choice([0, 1, 2, 3, 5])]:
+        labels[nm] = rng.choice(vals)
+    return dict(radix=rng.choice([16, 10, 10, 8, 2]), labels=labels, map={})
+
+
+def normalise_toks(toks, m):
+    """The same tokens with every spelled number replaced by its `$hex` form (what the model, which has
+    radix 16 and no labels, is asked); separators and everything else are kept."""
+    out = []
+    for t in toks:
+        if t in m:
+            out.append('$%x' % m[t])
+            continue
+        pieces = re.split(r'([:,]+)', t)
+        if all((p in m) or re.fullmatch(r'[:,]*', p) for p in pieces):
+            out.append(''.join(('$%x' % m[p]) if p in m else p for p in pieces))
+        else:
+            out.append(t)
+    return out
 
 
 def spell_range(rng, a, b):
@@ -732,6 +817,21 @@ def gen_script(rng, dev):
     last = None
     n = rng.randrange(3, 9)
     big = rng.random() < 0.04
+    ctx = gen_context(rng, dev) if rng.random() < 0.3 else None
+    _SPELL[0] = ctx
+    try:
+        _gen_cmds(rng, dev, s, cmds, n, big, width, last, top, P)
+    finally:
+        _SPELL[0] = None
+    if ctx is not None:
+        s['ctx'] = dict(radix=ctx['radix'], labels=ctx['labels'])
+        for c in cmds:
+            if 'toks' in c and c['k'] != 'db':      # delete_breakpoint takes a plain int(), not an address
+                c['ntoks'] = normalise_toks(c['toks'], ctx['map'])
+    return s
+
+
+def _gen_cmds(rng, dev, s, cmds, n, big, width, last, top, P):
     while len(cmds) < n:
         r = rng.random()
         if (not cmds and r < 0.6) or r < 0.08:
@@ -847,7 +947,7 @@ def run_real(s, scratch, want_oracle=True):
     """Execute a script on the real monitor.  Returns dict(outs, tail, subj(list), findings, per-command info)."""
     dev = s['dev']
     P = DEVS[dev]
-    rm = RealMon(dev, s['seed'], s['pc'], scratch)
+    rm = RealMon(dev, s['seed'], s['pc'], scratch, s.get('ctx'))
     outs, info, finds = [], [], []
     snapshots = {}
     files = {}
@@ -926,6 +1026,8 @@ def evaluate(scripts, scratch):
         res['n_cmds'] += len(s['cmds'])
         dev = s['dev']
         width = 78
+        sk = 'session/' + ('radix-%d,labels-%d' % (s['ctx']['radix'], min(len(s['ctx']['labels']), 3)) if s.get('ctx') else 'plain')
+        res['dist'][sk] = res['dist'].get(sk, 0) + 1
         for c, out in zip(s['cmds'], rr['outs']):
             if c['k'] == 'width' and c['n'] >= 10:
                 width = c['n']
